@@ -272,6 +272,11 @@ func (x *Exec) globalConst(name string) (Value, bool) {
 			if c, ok := obj.(*types.Const); ok {
 				return x.constVal(nil, ssa.NewConst(c.Val(), c.Type())), true
 			}
+			if _, ok := obj.(*types.Var); ok {
+				if g, ok := sp.Members[name].(*ssa.Global); ok && x.evalState != nil {
+					return x.loadPtr(x.evalState, x.globalPtr(g).(PtrV)), true
+				}
+			}
 		}
 	}
 	return nil, false
